@@ -4,10 +4,11 @@ use std::{cell::RefCell, collections::HashMap, path::PathBuf, rc::Rc, string::To
 use crate::{
     context::CommonContext,
     instruction::operation::Operation,
-    parser::{
-        parse_iter, CodePoint, Item, Macro, ParseContext, ParseResult, Paths, Segment, SegmentType,
-    },
+    parser::{parse_iter, CodePoint, Item, Macro, ParseContext, ParseResult, Paths, Segment},
 };
+
+#[cfg(test)]
+use crate::parser::SegmentType;
 
 use crate::instruction::InstructionOps;
 use failure::{bail, Error};
@@ -102,19 +103,14 @@ pub fn build_pass_0(
     };
 
     for segment in parsed.segments {
-        match segment.t {
-            SegmentType::Data | SegmentType::Eeprom => {
-                context.add_segment(segment.clone());
-            }
-            SegmentType::Code => {
-                context.add_segment(Segment {
-                    address: segment.address,
-                    t: segment.t,
-                    items: vec![],
-                });
-                pass0_internal(segment.clone(), &context, &parsed.macroses, 0)?;
-            }
-        }
+        // macro calls are expanded wherever they stand: in the data segment and in the
+        // EEPROM segment as well
+        context.add_segment(Segment {
+            address: segment.address,
+            t: segment.t,
+            items: vec![],
+        });
+        pass0_internal(segment.clone(), &context, &parsed.macroses, 0)?;
     }
 
     Ok(context.as_pass0_result())
@@ -175,16 +171,12 @@ fn pass0_internal(
                         }
                         pass0_internal(segments[0].clone(), context, macroses, depth + 1)?;
                         for segment in segments.iter().skip(1) {
-                            if segment.t == SegmentType::Code {
-                                context.add_segment(Segment {
-                                    address: segment.address,
-                                    t: segment.t,
-                                    items: vec![],
-                                });
-                                pass0_internal(segment.clone(), context, macroses, depth + 1)?;
-                            } else {
-                                context.add_segment(segment.clone());
-                            }
+                            context.add_segment(Segment {
+                                address: segment.address,
+                                t: segment.t,
+                                items: vec![],
+                            });
+                            pass0_internal(segment.clone(), context, macroses, depth + 1)?;
                         }
                     }
                 }
@@ -232,10 +224,15 @@ fn macro_expand(
     context: &Pass0Context,
     macroses: &HashMap<String, Vec<(CodePoint, String)>>,
 ) -> Result<Vec<Segment>, Error> {
-    let start_address = context.last_segment().unwrap().borrow().address;
+    // the body starts in the segment the call stands in
+    let (start_address, start_type) = {
+        let current_segment = context.last_segment().unwrap();
+        let current_segment = current_segment.borrow();
+        (current_segment.address, current_segment.t)
+    };
     let segments = Rc::new(RefCell::new(vec![Rc::new(RefCell::new(Segment {
         items: vec![],
-        t: SegmentType::Code,
+        t: start_type,
         address: start_address,
     }))]));
     if let Some(macro_body) = macroses.get(macro_name) {
